@@ -191,9 +191,9 @@ class Session(BaseSession):
             "CURRENT_USER": lambda: self.username,
             "VERSION": lambda: self.variables.get("version"),
             "DATABASE": lambda: self.database,
-            "NOW": lambda: self.timestamp.strftime("%Y-%m-%d %H:%M:%S"),
-            "CURDATE": lambda: self.timestamp.strftime("%Y-%m-%d"),
-            "CURTIME": lambda: self.timestamp.strftime("%H:%M:%S"),
+            "NOW": lambda: self._now().strftime("%Y-%m-%d %H:%M:%S"),
+            "CURDATE": lambda: self._now().strftime("%Y-%m-%d"),
+            "CURTIME": lambda: self._now().strftime("%H:%M:%S"),
         }
         # Synonyms
         self._functions.update(
@@ -303,6 +303,11 @@ class Session(BaseSession):
 
     async def use(self, database: str) -> None:
         self.database = database
+
+    def _now(self) -> datetime:
+        # The instant the text arrived, in the time zone in force where it is read:
+        # a SET time_zone earlier in the same text or a SET_VAR hint applies
+        return self.timestamp.astimezone(self.timezone())
 
     def _parse(self, sql: str) -> List[exp.Expression]:
         # A comment after the last `;` is parsed as a statement of its own (exp.Semicolon)
